@@ -35,7 +35,8 @@ def _run_job(args):
     try:
         ex = symex.Explorer(job['fn'], job.get('params', {}), job['harness'],
                             max_paths=job.get('max_paths', 200000),
-                            timeout_s=job.get('timeout_s', 1500 if tier == 'thorough' else 240),
+                            timeout_s=min(job.get('timeout_s', 1500 if tier == 'thorough' else 240),
+                                          float(os.environ.get('VERIF_JOB_TIMEOUT', '1e9'))),
                             solver_timeout_ms=job.get('solver_timeout_ms', 20000))
         ex.run()
         st = ex.stats
